@@ -145,12 +145,13 @@ def cmdAll (a : Args) : String :=
     let prog := toOpenqasm c seq
     let text := showExc (fun p => pctEnc p.render) prog
     let qimp := showExc (fun c => showCirc c) (prog.bind fromOpenqasm)
+    let timp := showExc (fun c => showCirc c) (prog.bind fun p => fromOpenqasmText p.render)
     let j := toJson c seq
     let jimp := showExc (fun c => showCirc c) (fromJson j)
     let std := showExc (fun p => showStds (qasmStd p)) prog
     let ref := showExc showStds (stdOfCircuit seq)
     let fl := showOps (flat seq)
-    s!"ok text={text} qimp={qimp.replace " " "/"} json={showJson j} jimp={jimp.replace " " "/"} std={std} ref={ref} flat={fl}"
+    s!"ok text={text} qimp={qimp.replace " " "/"} timp={timp.replace " " "/"} json={showJson j} jimp={jimp.replace " " "/"} std={std} ref={ref} flat={fl}"
 
 /-- parse a statement list the way `from_openqasm` does; also returns the text that was parsed -/
 def cmdParse (a : Args) : String :=
@@ -161,7 +162,13 @@ def cmdParse (a : Args) : String :=
     let prog : Program := { header := header, imports := [], defs := [], decls := [], body := stmts.map fun s => [s] }
     let text := header ++ "\n".toList ++ (stmts.flatMap fun s => s.render ++ "\n".toList)
     let r := showExc showCirc (fromOpenqasm prog)
-    s!"ok text={pctEnc text} res={r.replace " " "/"}"
+    let rt := showExc showCirc (fromOpenqasmText text)
+    s!"ok text={pctEnc text} res={r.replace " " "/"} tres={rt.replace " " "/"}"
+
+/-- `from_openqasm` on arbitrary text (text-level model) -/
+def cmdParseText (a : Args) : String :=
+  let r := showExc showCirc (fromOpenqasmText (pctDec (get a "text")))
+  s!"ok tres={r.replace " " "/"}"
 
 def jopOf (s : String) : Option JOp :=
   match splitChar '~' s with
@@ -272,6 +279,7 @@ def dispatch (cmd : String) (a : Args) : Option String :=
   match cmd with
   | "c14.all" => some (cmdAll a)
   | "c14.parse" => some (cmdParse a)
+  | "c14.parsetext" => some (cmdParseText a)
   | "c14.jsonparse" => some (cmdJsonParse a)
   | "c14.name" => some (cmdName a)
   | "c14.wrapinfo" => some (cmdWrapInfo a)
